@@ -7,6 +7,7 @@ and handed to the model, which also checks `isTreeB` (the hypothesis of
 T17.4/5).  Oracle: plain graph check independent of the model."""
 import itertools
 import json
+import random as _pyrandom
 
 from .. import core
 
@@ -79,6 +80,133 @@ def names(rng, n):
     return rng.sample(pool, n)
 
 
+SWEEP_NAMES = ["Alice", "Bob", "Charlie", "David", "Eve", "Faythe", "Grace", "Heidi"]
+
+
+def sweep_seeds(n, thorough):
+    """number of scripted seeds per (n, k): the generators are cheap"""
+    if n <= 5:
+        return 240 if thorough else 120
+    if n == 6:
+        return 120 if thorough else 40
+    return 40
+
+
+def seeded_sweep(ctx, res, net, nx, tree_fn_name, orig_tree, lines=None, expect=None, wide=None):
+    """Every n in 2..6 (..8 thorough), EVERY admissible k in [n-1, n(n-1)/2] and one step outside each end, many
+    scripted seeds per (n, k): the real construct_topology_config / get_random_connected / get_random_tree with the
+    module's `random` replaced by random.Random(seed) (networkx's tree generator is seeded from the same source), so
+    (n, k, seed) determines the run.  A property that fails for a single k and a fraction of the seeds (a dense-graph
+    shortcut, an off-by-one in one branch) is met here; the first failure in (n, k, seed) order is the smallest.
+    Judged by graph_oracle (node set exact, symmetric, simple, k edges, connected); with the Lean driver the recorded
+    tree and picks are also tied to the model."""
+    first = {}          # key -> smallest failing (n, k, seed)
+
+    def fail(key, what, replay):
+        if key not in first:
+            first[key] = 1
+            res.violation(key, what, replay)
+
+    def call(fn, seed):
+        src = _pyrandom.Random(seed)
+        rec = Recorder(src)
+        trees = []
+
+        def rec_tree(n, *a, **kw):
+            g = orig_tree(n, seed=src.randrange(2 ** 31))
+            trees.append(sorted(tuple(e) for e in g.edges()))
+            return g
+
+        old_random, old_tree = net.random, getattr(nx, tree_fn_name)
+        net.random = rec
+        setattr(nx, tree_fn_name, rec_tree)
+        try:
+            try:
+                return "ok", fn(), trees, rec.picks
+            except ValueError:
+                return "ValueError", None, trees, rec.picks
+            except Exception as e:
+                return "crash:" + type(e).__name__, None, trees, rec.picks
+        finally:
+            net.random = old_random
+            setattr(nx, tree_fn_name, old_tree)
+
+    def tie(line, want, case):
+        if lines is not None:
+            lines.append(line)
+            expect.append((want, case))
+
+    wide = ctx.thorough if wide is None else wide
+    nmax = 8 if wide else 6
+    graphs = 0
+    for n in range(2, nmax + 1):
+        nodes = SWEEP_NAMES[:n]
+        lo, hi = n - 1, n * (n - 1) // 2
+        seeds = sweep_seeds(n, wide)
+        # a second name list (from the run's seed) for a quarter of the seeds: labels are opaque
+        alt = names(ctx.rng, n)
+        for k in range(lo, hi + 1):
+            for seed in range(seeds):
+                nl = alt if seed % 4 == 3 else nodes
+                for via in (("config", "direct") if seed % 8 == 0 else ("config",)):
+                    topology = "random_connected_%d" % k
+                    if via == "config":
+                        kind, d, trees, picks = call(lambda: net.construct_topology_config(topology, list(nl)), seed)
+                    else:
+                        kind, d, trees, picks = call(lambda: net.get_random_connected(list(nl), k), seed)
+                    graphs += 1
+                    replay = {"shape": topology, "nodes": list(nl), "n": n, "k": k, "seed": seed, "via": via,
+                              "how": "simulaqron.network.random = random.Random(seed); networkx tree generator "
+                                     "seeded with its first randrange(2**31)"}
+                    bad = ("raised " + kind) if kind != "ok" else graph_oracle(nl, d, k)
+                    if bad:
+                        obs = canon(d) if kind == "ok" and isinstance(d, dict) and all(
+                            isinstance(v, list) for v in d.values()) else kind
+                        fail("random_connected:%s" % (bad.split(" ")[-1] if kind != "ok" else "graph"),
+                             "%s over %d nodes, seed %d: %s" % (topology, n, seed, bad), {**replay, "observed": obs})
+                    elif via == "config" and trees:
+                        t = trees[0]
+                        es = " ".join("%d-%d" % e for e in t)
+                        ps = " ".join("%d-%d" % tuple(p) for p in picks)
+                        case = {**replay, "tree": t, "picks": [tuple(p) for p in picks]}
+                        tie("rconn %d %s | %s | %s" % (k, " ".join(nl), es, ps), canon(d), case)
+                    if seed < 2 and via == "config":
+                        res.case({"shape": topology, "nodes": list(nl), "seed": seed}, nontrivial=n >= 3)
+                    res.count("sweep:random_connected")
+        for k in (lo - 1, hi + 1):
+            for via in ("config", "direct"):
+                topology = "random_connected_%d" % k
+                if via == "config":
+                    kind, d, _t, _p = call(lambda: net.construct_topology_config(topology, list(nodes)), 0)
+                else:
+                    kind, d, _t, _p = call(lambda: net.get_random_connected(list(nodes), k), 0)
+                if kind != "ValueError":
+                    fail("random_connected:accepts-out-of-range",
+                         "%s over %d nodes should be rejected, got %s" % (topology, n, kind if d is None else canon(d)),
+                         {"shape": topology, "nodes": list(nodes), "n": n, "k": k, "seed": 0, "via": via})
+                res.count("sweep:out-of-range")
+        for seed in range(seeds):
+            nl = alt if seed % 4 == 3 else nodes
+            for via in (("config", "direct") if seed % 8 == 0 else ("config",)):
+                if via == "config":
+                    kind, d, trees, _p = call(lambda: net.construct_topology_config("random_tree", list(nl)), seed)
+                else:
+                    kind, d, trees, _p = call(lambda: net.get_random_tree(list(nl)), seed)
+                graphs += 1
+                replay = {"shape": "random_tree", "nodes": list(nl), "n": n, "seed": seed, "via": via}
+                bad = ("raised " + kind) if kind != "ok" else graph_oracle(nl, d, n - 1)
+                if bad:
+                    fail("random_tree:%s" % (bad.split(" ")[-1] if kind != "ok" else "graph"),
+                         "random_tree over %d nodes, seed %d: %s" % (n, seed, bad), {**replay, "observed": kind})
+                elif via == "config" and trees:
+                    es = " ".join("%d-%d" % e for e in trees[0])
+                    tie("rtree %s | %s" % (" ".join(nl), es), canon(d), {**replay, "tree": trees[0]})
+                res.count("sweep:random_tree")
+    res.notes.append("seeded sweep: %d graphs, n=2..%d, every admissible k, %s seeds per (n,k)" % (
+        graphs, nmax, "/".join(str(sweep_seeds(n, wide)) for n in range(2, nmax + 1))))
+    return bool(first)
+
+
 def run(ctx):
     core.scratch_repo()
     import networkx as nx
@@ -87,7 +215,9 @@ def run(ctx):
     res = core.Result()
     res.rule = ("shapes complete/ring/path for every n in range x several name lists; random_tree and "
                 "random_connected_k for n=3..12, every admissible k (thorough) or a spread of k (quick), several "
-                "seeds; out-of-range k; non-trivial = n>=3; distinct by (shape, names, tree, picks)")
+                "seeds; out-of-range k; seeded sweep: n=2..6 (..8 thorough) x EVERY admissible k x 120/40 scripted seeds "
+                "(random.Random(seed) as the module's random source) + one k outside each end + random_tree per seed; "
+                "non-trivial = n>=3; distinct by (shape, names, tree, picks)")
     rng = ctx.rng
     trees = []
     tree_fn_name = "random_tree" if hasattr(nx, "random_tree") else "random_labeled_tree"
@@ -98,6 +228,7 @@ def run(ctx):
         trees.append(sorted(tuple(e) for e in g.edges()))
         return g
 
+    rec_tree._c17_orig = orig_tree
     setattr(nx, tree_fn_name, rec_tree)
     recorder = Recorder(rng)
     net.random = recorder
@@ -180,6 +311,8 @@ def run(ctx):
                 for k in (lo - 1, hi + 1, 0, hi + 7):
                     if k >= 0:
                         one("random_connected", nodes, k=k, admissible=False)
+    # ---- every (n, k) x many scripted seeds (own random source per call; restores the recorder afterwards)
+    seeded_sweep(ctx, res, net, nx, tree_fn_name, orig_tree, lines, expect)
     # complete with n=1 is outside the stated range: do not judge it
     res.violations = [v for v in res.violations if not (v["replay"]["shape"] == "complete" and len(v["replay"]["nodes"]) < 2)]
 
@@ -193,5 +326,14 @@ def run(ctx):
 
 
 def search(ctx, res, broken):
-    # the oracle already ran on every case; nothing beyond it to try
-    res.notes.append("targeted search = the graph oracle over all generated cases; no failing input")
+    # the oracle already ran on every generated case and on the quick seeded sweep; widen the sweep (n up to 8, more
+    # seeds per (n, k)) before giving up
+    core.scratch_repo()
+    import networkx as nx
+    from simulaqron import network as net
+    tree_fn_name = "random_tree" if hasattr(nx, "random_tree") else "random_labeled_tree"
+    orig_tree = getattr(getattr(nx, tree_fn_name), "_c17_orig", getattr(nx, tree_fn_name))
+    found = seeded_sweep(ctx, res, net, nx, tree_fn_name, orig_tree, wide=True)
+    if not found:
+        res.notes.append("targeted search = the graph oracle over all generated cases and the widened seeded sweep; "
+                         "no failing input")
